@@ -431,6 +431,19 @@ Section FloatProofs.
     rewrite Hunpack, Hcanon. reflexivity.
   Qed.
 
+  Lemma lexes_float_inv : forall ty s neg b, Model.lexes_float ty s = Some (neg, b) ->
+    lex false (s ++ str " : " ++ fname ty) =
+    Ok ((if neg then [TMinus] else []) ++ [TFloat b; TColon; TBare (fname ty)]).
+  Proof.
+    intros ty s neg b H. unfold Model.lexes_float in H.
+    repeat match type of H with
+           | context [match ?x with _ => _ end] => destruct x eqn:?; try discriminate
+           end;
+    injection H as <- <-;
+    match goal with E : _ && _ = true |- _ => apply andb_true_iff in E as [En _]; apply text_eqb_eq in En; subst end;
+    reflexivity.
+  Qed.
+
   (* a decimal form that satisfies the pointwise CPython facts reads back as x *)
   Lemma decimal_literal_roundtrip : forall ty x s neg b,
     Model.lexes_float ty s = Some (neg, b) ->
@@ -442,26 +455,10 @@ Section FloatProofs.
     | Raise e => Raise e
     end = Ok x.
   Proof.
-    intros ty x s neg b Hlex Hneg Hval. unfold Model.lexes_float in Hlex.
-    destruct (lex false (s ++ str " : " ++ fname ty)) as [ts| |e]; try discriminate.
-    destruct ts as [|t1 ts]; [discriminate|].
-    destruct t1; try discriminate.
-    - (* MINUS FLOAT_LIT COLON BARE *)
-      destruct ts as [|t2 [|t3 [|t4 [|t5 ts]]]]; try discriminate;
-        destruct t2; try discriminate; try (destruct t3; discriminate).
-      destruct t3; try discriminate. destruct t4; try discriminate.
-      destruct (text_eqb t0 (fname ty) && text_eqb s (45 :: t)) eqn:E; [|discriminate].
-      injection Hlex as <- <-. apply andb_true_iff in E as [En _].
-      unfold Model.parse_float_attr. cbn [is_hex_tok parse_optional_number]. rewrite En. cbn [negb].
-      rewrite <- Hneg, Hval. reflexivity.
-    - (* FLOAT_LIT COLON BARE *)
-      destruct ts as [|t2 [|t3 [|t4 ts]]]; try discriminate;
-        destruct t2; try discriminate.
-      destruct t3; try discriminate.
-      destruct (text_eqb t0 (fname ty) && text_eqb s t) eqn:E; [|discriminate].
-      injection Hlex as <- <-. apply andb_true_iff in E as [En _].
-      unfold Model.parse_float_attr. cbn [is_hex_tok parse_optional_number]. rewrite En. cbn [negb].
-      rewrite <- Hneg, Hval. reflexivity.
+    intros ty x s neg b Hlex Hneg Hval. rewrite (lexes_float_inv ty s neg b Hlex).
+    unfold Model.parse_float_attr.
+    destruct neg; cbn [app is_hex_tok parse_optional_number]; rewrite text_eqb_refl; cbn [negb];
+      rewrite <- Hneg, Hval; reflexivity.
   Qed.
 
   Lemma decimal_ok_roundtrip : forall ty x s, decimal_ok ty x s = true ->
@@ -493,10 +490,10 @@ Section FloatProofs.
       assert (Hk : Z.to_nat (2 * fsize ty) <> O) by lia.
       destruct (hex_fixed_spec false (Z.to_nat (2 * fsize ty)) (pack ty x) 0 Hp0) as (Hhorn & Hall & Hlen).
       apply hex_literal_roundtrip with (i := pack ty x); auto.
-      + intros E. rewrite E in Hlen. cbn in Hlen. lia.
+      + intros E. rewrite E in Hlen. cbn [List.length] in Hlen. congruence.
       + unfold int_of_digits.
         destruct (hex_fixed false (Z.to_nat (2 * fsize ty)) (pack ty x)) eqn:E;
-          [cbn in Hlen; lia|]. rewrite Hhorn. f_equal.
+          [cbn [List.length] in Hlen; congruence|]. rewrite Hhorn. f_equal.
         rewrite pow16_pow2 by lia. rewrite Z.mod_small by lia. lia.
     - (* short %.5e form *)
       destruct (f64_iszero x) eqn:Hz.
@@ -519,3 +516,436 @@ Section FloatProofs.
       apply nat_digits16_all_hex. assumption.
   Qed.
 End FloatProofs.
+
+(* ------------------------------------------------------------------ *)
+(* 6. dense elements and dense arrays                                   *)
+
+Lemma map_res_map : forall {A B} (f : A -> res B) (g : B -> A) ps,
+  Forall (fun p => f (g p) = Ok p) ps -> map_res f (map g ps) = Ok ps.
+Proof.
+  induction ps as [|p ps IH]; intros H; [reflexivity|]. inversion H; subst.
+  cbn [map map_res]. rewrite H2, IH by assumption. reflexivity.
+Qed.
+
+Lemma le_bytes_length : forall k v, List.length (le_bytes k v) = k.
+Proof. induction k; intros; cbn; [reflexivity|]. rewrite IHk. reflexivity. Qed.
+
+Lemma le_bytes_bytes : forall k v, Forall is_byte (le_bytes k v).
+Proof.
+  induction k; intros; cbn; constructor; [|apply IHk].
+  unfold is_byte. apply Z.mod_pos_bound. lia.
+Qed.
+
+Lemma of_le_bytes_le_bytes : forall k v, of_le_bytes (le_bytes k v) = v mod 256 ^ Z.of_nat k.
+Proof.
+  induction k; intros v.
+  - cbn. rewrite Z.mod_1_r. reflexivity.
+  - cbn [le_bytes of_le_bytes]. rewrite IHk. rewrite Nat2Z.inj_succ, Z.pow_succ_r by lia.
+    assert (0 < 256 ^ Z.of_nat k) by (apply Z.pow_pos_nonneg; lia).
+    rewrite Z.rem_mul_r by lia. lia.
+Qed.
+
+Lemma bytes_fromhex_hex : forall up bs, Forall is_byte bs -> bytes_fromhex (hex_of_bytes up bs) = Some bs.
+Proof.
+  induction bs as [|b bs IH]; intros H; [reflexivity|]. inversion H as [|? ? Hb Hbs]; subst.
+  unfold is_byte in Hb. unfold hex_of_bytes in *. cbn [flat_map app bytes_fromhex].
+  assert (Hq : 0 <= b / 16 < 16) by (split; [apply Z.div_pos|apply Z.div_lt_upper_bound]; lia).
+  assert (Hm : 0 <= b mod 16 < 16) by (apply Z.mod_pos_bound; lia).
+  rewrite (digit_val_char up _ Hq), (digit_val_char up _ Hm), IH by assumption.
+  f_equal. f_equal. pose proof (Z.div_mod b 16 ltac:(lia)). lia.
+Qed.
+
+Lemma flat_map_bytes : forall k ps, Forall is_byte (flat_map (le_bytes k) ps).
+Proof. induction ps; cbn; [constructor|]. apply Forall_app. split; [apply le_bytes_bytes|assumption]. Qed.
+
+Lemma flat_map_le_length : forall k ps,
+  List.length (flat_map (le_bytes k) ps) = (List.length ps * k)%nat.
+Proof. induction ps; cbn; [reflexivity|]. rewrite app_length, le_bytes_length, IHps. reflexivity. Qed.
+
+Lemma firstn_app_exact : forall {A} (a b : list A) k, List.length a = k -> firstn k (a ++ b) = a.
+Proof. intros A a b k <-. rewrite firstn_app, Nat.sub_diag, firstn_all. cbn. apply app_nil_r. Qed.
+
+Lemma skipn_app_exact : forall {A} (a b : list A) k, List.length a = k -> skipn k (a ++ b) = b.
+Proof. intros A a b k <-. rewrite skipn_app, Nat.sub_diag, skipn_all. reflexivity. Qed.
+
+Lemma chunks_flat_map : forall k ps fuel, k <> O -> (List.length ps <= fuel)%nat ->
+  chunks fuel k (flat_map (le_bytes k) ps) = map (le_bytes k) ps.
+Proof.
+  induction ps as [|p ps IH]; intros fuel Hk Hf.
+  - destruct fuel; reflexivity.
+  - destruct fuel; [cbn in Hf; lia|]. cbn [flat_map map chunks].
+    destruct (le_bytes k p ++ flat_map (le_bytes k) ps) eqn:E.
+    + exfalso. assert (Hl : List.length (le_bytes k p ++ flat_map (le_bytes k) ps) = O) by (rewrite E; reflexivity).
+      rewrite app_length, le_bytes_length in Hl. lia.
+    + rewrite <- E. pose proof (le_bytes_length k p) as Hl.
+      rewrite (firstn_app_exact _ _ k Hl), (skipn_app_exact _ _ k Hl).
+      rewrite IH by (cbn in Hf; auto; lia). reflexivity.
+Qed.
+
+Lemma repeat_all_eq : forall (ps : list Z) p0, (forall p, In p ps -> p = p0) ->
+  repeat p0 (List.length ps) = ps.
+Proof.
+  induction ps as [|p ps IH]; intros p0 H; [reflexivity|]. cbn.
+  rewrite (H p (or_introl eq_refl)). f_equal. apply IH. intros q Hq. apply H. right. assumption.
+Qed.
+
+Lemma prod_nonneg : forall shape, Forall (fun d => 0 <= d) shape -> 0 <= fold_right Z.mul 1 shape.
+Proof. induction 1; cbn; [lia|]. nia. Qed.
+
+Lemma prod_pos_dims : forall shape, Forall (fun d => 0 <= d) shape -> fold_right Z.mul 1 shape <> 0 ->
+  forallb (fun d => 1 <=? d) shape = true.
+Proof.
+  induction 1 as [|d shape Hd Hs IH]; cbn; intros Hp; [reflexivity|].
+  assert (d <> 0 /\ fold_right Z.mul 1 shape <> 0) as [Hd0 Hp0] by nia.
+  rewrite IH by assumption. replace (1 <=? d) with true by (symmetry; apply Z.leb_le; lia). reflexivity.
+Qed.
+
+Lemma shape_eqb_refl : forall a, shape_eqb a a = true.
+Proof. induction a; cbn; [reflexivity|]. rewrite Z.eqb_refl, IHa. reflexivity. Qed.
+
+Section DenseProofs.
+  Variable pack : fty -> Z -> Z.
+  Variable unpack : fty -> Z -> Z.
+  Variables fmt5e fmt9g fmt17g repr_ : Z -> text.
+  Variable scan : text -> Z.
+  Variable of_int : Z -> res Z.
+
+  Notation elem_value := (elem_value unpack).
+  Notation print_elem := (print_elem pack unpack fmt5e fmt9g fmt17g repr_ scan).
+  Notation parse_elem_text := (parse_elem_text pack unpack scan of_int).
+  Notation is_splat := (is_splat).
+  Notation print_dense := (print_dense pack unpack fmt5e fmt9g fmt17g repr_ scan).
+  Notation parse_dense := (parse_dense pack unpack scan of_int).
+  Notation dense_roundtrip := (dense_roundtrip pack unpack fmt5e fmt9g fmt17g repr_ scan of_int).
+  Notation print_densearray := (print_densearray pack unpack fmt5e fmt9g fmt17g repr_ scan).
+  Notation parse_array_elem := (parse_array_elem pack unpack scan).
+  Notation densearray_roundtrip := (densearray_roundtrip pack unpack fmt5e fmt9g fmt17g repr_ scan).
+
+  (* `hexfix` / `splatfix` = false: the unchanged tree; true: with the proposed repairs C06-2/3 and C06-4 *)
+
+  (* one element printed on its own reads back as the stored element *)
+  Definition elem_rt (hexfix : bool) (e : ety) (p : Z) : Prop :=
+    parse_elem_text hexfix e (print_elem e (elem_value e p)) = Ok p.
+  (* the stored element survives its little-endian byte representation (hex-string form) *)
+  Definition payload_fits (e : ety) (sz : Z) (p : Z) : Prop :=
+    payload_of_bytes e sz (le_bytes (Z.to_nat sz) p) = p.
+  (* the splat test is exact: when it fires, all stored elements are the same *)
+  Definition splat_exact (splatfix : bool) (e : ety) (ps : list Z) : Prop :=
+    (if splatfix then is_splat_bits ps else is_splat e (map (elem_value e) ps)) = true ->
+    forall p, In p ps -> p = hd 0 ps.
+
+  Theorem dense_roundtrip_ok : forall hexfix splatfix e shape ps sz,
+    elem_size e = Ok sz -> 0 < sz ->
+    prod shape = Z.of_nat (List.length ps) -> Forall (fun d => 0 <= d) shape ->
+    Forall (elem_rt hexfix e) ps -> Forall (payload_fits e sz) ps -> splat_exact splatfix e ps ->
+    dense_roundtrip hexfix splatfix e shape ps = Ok ps.
+  Proof.
+    intros hexfix splatfix e shape ps sz Hsz Hszpos Hprod Hdims Hrt Hfits Hsplat.
+    unfold Model.dense_roundtrip, Model.print_dense.
+    set (len := Z.of_nat (List.length ps)) in *.
+    destruct (len =? 0) eqn:Hlen0.
+    { apply Z.eqb_eq in Hlen0. subst len. destruct ps; [|cbn in Hlen0; lia].
+      unfold Model.parse_dense. rewrite Hprod. reflexivity. }
+    apply Z.eqb_neq in Hlen0.
+    destruct ps as [|p0 ps']; [subst len; cbn in Hlen0; lia|].
+    destruct (if splatfix then is_splat_bits (p0 :: ps') else is_splat e (map (elem_value e) (p0 :: ps'))) eqn:Hsp.
+    { (* splat *)
+      unfold Model.parse_dense. cbn [map hd]. inversion Hrt as [|? ? Hrt0 _]; subst.
+      unfold elem_rt in Hrt0. rewrite Hrt0. rewrite Hprod. subst len. rewrite Nat2Z.id.
+      f_equal. apply repeat_all_eq. intros p Hp. apply (Hsplat Hsp p Hp). }
+    destruct (100 <? len) eqn:Hbig.
+    { (* hex string *)
+      apply Z.ltb_lt in Hbig. rewrite Hsz. unfold Model.parse_dense.
+      set (bs := flat_map (le_bytes (Z.to_nat sz)) (p0 :: ps')).
+      rewrite bytes_fromhex_hex by apply flat_map_bytes. rewrite Hsz.
+      assert (Hbl : Z.of_nat (List.length bs) = len * sz).
+      { unfold bs. rewrite flat_map_le_length, Nat2Z.inj_mul, Z2Nat.id by lia. reflexivity. }
+      replace (Z.of_nat (List.length bs) =? sz) with false by (symmetry; apply Z.eqb_neq; nia).
+      rewrite Hbl, Z.div_mul by lia. rewrite Hprod, Z.eqb_refl.
+      replace (Z.to_nat (len * sz)) with (List.length bs) by lia.
+      rewrite firstn_all. unfold bs.
+      rewrite chunks_flat_map by (try lia; rewrite flat_map_le_length; nia).
+      rewrite map_map. f_equal. rewrite <- (map_id (p0 :: ps')) at 2.
+      apply map_ext_in. intros p Hp. rewrite Forall_forall in Hfits. apply (Hfits p Hp). }
+    (* nested list *)
+    assert (Hcomplete : shape_is_complete shape len = true).
+    { unfold shape_is_complete. fold (prod shape). rewrite Hprod, Z.eqb_refl, andb_true_r.
+      apply prod_pos_dims; [assumption|]. fold (prod shape). lia. }
+    rewrite Hcomplete. unfold Model.parse_dense.
+    rewrite map_map. rewrite (map_res_map (parse_elem_text hexfix e) (fun p => print_elem e (elem_value e p))).
+    - rewrite shape_eqb_refl. reflexivity.
+    - exact Hrt.
+  Qed.
+
+  Theorem densearray_roundtrip_ok : forall hexfix e ps,
+    Forall (fun p => parse_array_elem hexfix e (print_elem e (elem_value e p)) = Ok p) ps ->
+    densearray_roundtrip hexfix e ps = Ok ps.
+  Proof.
+    intros hexfix e ps H. unfold Model.densearray_roundtrip, Model.print_densearray.
+    apply (map_res_map (parse_array_elem hexfix e) (fun p => print_elem e (elem_value e p))). exact H.
+  Qed.
+
+  (* ---- integer elements: every premise holds ---- *)
+
+  (* a stored integer element: the normal form of IntegerAttr (and int64 for index) *)
+  Definition int_payload_ok (ty : ity) (p : Z) : Prop :=
+    match ty with
+    | TIndex => - 9223372036854775808 <= p < 9223372036854775808
+    | TInteger w s => 0 <= w /\ integer_attr ty p = Ok p
+    end.
+
+  Lemma lex_fmt_d : forall v, lex false (fmt_d v) = Ok (int_toks v).
+  Proof.
+    intros v. rewrite <- (app_nil_r (fmt_d v)), <- (app_nil_r (int_toks v)).
+    apply lex_of_lexes.
+    - apply lexes_fmt_d; [exact I|]. apply lexes_nil. reflexivity.
+    - rewrite !app_nil_r. unfold int_toks, fmt_d. destruct (v <? 0) eqn:E.
+      + apply Z.ltb_lt in E. pose proof (nat_digits_nonempty (- v) ltac:(lia)).
+        destruct (nat_digits 10 false (- v)); [contradiction|]. cbn [List.length]. lia.
+      + apply Z.ltb_ge in E. pose proof (nat_digits_nonempty v ltac:(lia)).
+        destruct (nat_digits 10 false v); [contradiction|]. cbn [List.length]. lia.
+  Qed.
+
+  Lemma parse_elem_int_toks : forall v, exists h, Model.parse_elem scan (int_toks v) = Ok (VInt v, h).
+  Proof.
+    intros v. unfold int_toks. destruct (v <? 0) eqn:E.
+    - apply Z.ltb_lt in E. cbn [Model.parse_elem]. rewrite nat_digits10_value by lia. eexists. f_equal. f_equal. f_equal. lia.
+    - apply Z.ltb_ge in E. cbn [Model.parse_elem]. rewrite nat_digits10_value by lia. eexists. reflexivity.
+  Qed.
+
+  Lemma int_elem_rt : forall hexfix ty p, int_payload_ok ty p -> elem_rt hexfix (EI ty) p.
+  Proof.
+    intros hexfix ty p Hok. unfold elem_rt, Model.parse_elem_text, Model.print_elem, Model.elem_value.
+    destruct (is_i1 ty) eqn:Hi1.
+    - assert (ty = TInteger 1 Signless) as ->.
+      { destruct ty as [|w [| |]]; try discriminate. cbn in Hi1. apply Z.eqb_eq in Hi1. subst. reflexivity. }
+      destruct Hok as [_ Hok]. destruct (i1_values p p Hok) as [-> | ->]; vm_compute; reflexivity.
+    - unfold print_int. rewrite lex_fmt_d. destruct (parse_elem_int_toks p) as [h ->].
+      destruct ty as [|w s].
+      + cbn in Hok. unfold Model.elem_payload, to_int, pyval_ltz. cbn [negb andb]. rewrite andb_false_r.
+        replace ((-9223372036854775808 <=? p) && (p <? 9223372036854775808)) with true
+          by (symmetry; apply andb_true_iff; split; [apply Z.leb_le|apply Z.ltb_lt]; lia).
+        reflexivity.
+      + destruct Hok as [Hw Hok]. destruct (integer_attr_spec w s p p Hw Hok) as (Hr & _ & _ & Hsg & _ & Hn).
+        unfold Model.elem_payload, to_int, pyval_ltz.
+        assert (Hneg : (p <? 0) && negb (match s with Unsigned => false | _ => true end) = false).
+        { destruct s; cbn [negb]; rewrite ?andb_false_r; try reflexivity.
+          unfold in_range, value_range in Hr. apply andb_true_iff in Hr as [Hlo _]. apply Z.leb_le in Hlo.
+          replace (p <? 0) with false by (symmetry; apply Z.ltb_ge; lia). reflexivity. }
+        rewrite Hneg, Hn. reflexivity.
+  Qed.
+
+  Lemma int_size_cases : forall w s sz, 0 <= w -> int_size (TInteger w s) = Ok sz ->
+    (sz = 1 \/ sz = 2 \/ sz = 4 \/ sz = 8) /\ w <= 8 * sz.
+  Proof.
+    intros w s sz Hw H. unfold int_size in H. rewrite Z.shiftr_div_pow2 in H by lia. change (2 ^ 3) with 8 in H.
+    pose proof (Z.div_mod (w + 7) 8 ltac:(lia)). pose proof (Z.mod_pos_bound (w + 7) 8 ltac:(lia)).
+    destruct (8 <=? (w + 7) / 8 - 1) eqn:E8; [discriminate|]. apply Z.leb_gt in E8.
+    destruct ((w + 7) / 8 - 1 <=? 0) eqn:E0; [apply Z.leb_le in E0; injection H as <-; split; [auto|lia]|].
+    apply Z.leb_gt in E0.
+    destruct ((w + 7) / 8 - 1 =? 1) eqn:E1; [apply Z.eqb_eq in E1; injection H as <-; split; [auto|lia]|].
+    apply Z.eqb_neq in E1.
+    destruct ((w + 7) / 8 - 1 <=? 3) eqn:E3; [apply Z.leb_le in E3|apply Z.leb_gt in E3];
+      injection H as <-; split; auto; lia.
+  Qed.
+
+  Lemma signed_fits : forall sz p, 0 < sz -> - 2 ^ (8 * sz - 1) <= p < 2 ^ (8 * sz - 1) ->
+    let u := p mod 256 ^ sz in (if 2 ^ (8 * sz - 1) <=? u then u - 2 ^ (8 * sz) else u) = p.
+  Proof.
+    intros sz p Hsz Hp. change 256 with (2 ^ 8). rewrite <- Z.pow_mul_r by lia.
+    assert (Hpow : 2 ^ (8 * sz) = 2 * 2 ^ (8 * sz - 1)).
+    { replace (8 * sz) with (Z.succ (8 * sz - 1)) at 1 by lia. rewrite Z.pow_succ_r by lia. reflexivity. }
+    assert (0 < 2 ^ (8 * sz - 1)) by (apply Z.pow_pos_nonneg; lia).
+    cbv zeta. destruct (Z_lt_le_dec p 0) as [Hn|Hn].
+    - replace (p mod 2 ^ (8 * sz)) with (p + 2 ^ (8 * sz)).
+      + replace (2 ^ (8 * sz - 1) <=? p + 2 ^ (8 * sz)) with true by (symmetry; apply Z.leb_le; lia). lia.
+      + apply Z.mod_unique with (q := -1); lia.
+    - rewrite Z.mod_small by lia.
+      replace (2 ^ (8 * sz - 1) <=? p) with false by (symmetry; apply Z.leb_gt; lia). reflexivity.
+  Qed.
+
+  Lemma int_payload_fits : forall ty p sz, int_payload_ok ty p -> int_size ty = Ok sz ->
+    payload_fits (EI ty) sz p.
+  Proof.
+    intros ty p sz Hok Hsz. unfold payload_fits, payload_of_bytes.
+    rewrite of_le_bytes_le_bytes.
+    destruct ty as [|w s].
+    - cbn in Hsz. injection Hsz as <-. cbn in Hok. rewrite Z2Nat.id by lia.
+      apply (signed_fits 8 p); [lia|]. cbn. lia.
+    - destruct Hok as [Hw Hok]. destruct (int_size_cases w s sz Hw Hsz) as [Hcases Hle].
+      assert (Hszpos : 0 < sz) by lia. rewrite Z2Nat.id by lia.
+      destruct (integer_attr_spec w s p p Hw Hok) as (Hr & _ & _ & Hsg & _ & _).
+      destruct (bounds_cases w Hw) as [HU Hc].
+      assert (Hmono : 2 ^ w <= 2 ^ (8 * sz)) by (apply Z.pow_le_mono_r; lia).
+      destruct s.
+      + apply (signed_fits sz p Hszpos). specialize (Hsg ltac:(discriminate)).
+        assert (0 < 2 ^ (8 * sz - 1)) by (apply Z.pow_pos_nonneg; lia).
+        destruct Hc as [(-> & Hl & Hs)|(Hw1 & Hs & Hl & Hp & Hp1)].
+        * rewrite Hl, Hs in Hsg. lia.
+        * rewrite Hl, Hs in Hsg.
+          assert (2 ^ (w - 1) <= 2 ^ (8 * sz - 1)) by (apply Z.pow_le_mono_r; lia). lia.
+      + apply (signed_fits sz p Hszpos). specialize (Hsg ltac:(discriminate)).
+        assert (0 < 2 ^ (8 * sz - 1)) by (apply Z.pow_pos_nonneg; lia).
+        destruct Hc as [(-> & Hl & Hs)|(Hw1 & Hs & Hl & Hp & Hp1)].
+        * rewrite Hl, Hs in Hsg. lia.
+        * rewrite Hl, Hs in Hsg.
+          assert (2 ^ (w - 1) <= 2 ^ (8 * sz - 1)) by (apply Z.pow_le_mono_r; lia). lia.
+      + unfold in_range, value_range in Hr. rewrite HU in Hr.
+        apply andb_true_iff in Hr as [Hlo Hhi]. apply Z.leb_le in Hlo. apply Z.ltb_lt in Hhi.
+        change 256 with (2 ^ 8). rewrite <- Z.pow_mul_r by lia. apply Z.mod_small. lia.
+  Qed.
+
+  (* with the repaired splat test the premise holds for every element type *)
+  Lemma splat_exact_fixed : forall e ps, splat_exact true e ps.
+  Proof.
+    intros e ps Hs p Hp. destruct ps as [|p0 ps]; [destruct Hp|]. cbn [hd].
+    cbn [is_splat_bits] in Hs. destruct Hp as [<-|Hp]; [reflexivity|]. rewrite forallb_forall in Hs.
+    specialize (Hs p Hp). apply Z.eqb_eq in Hs. assumption.
+  Qed.
+
+  Lemma int_splat_exact : forall splatfix ty ps, splat_exact splatfix (EI ty) ps.
+  Proof.
+    intros [|] ty ps; [apply splat_exact_fixed|].
+    intros Hs p Hp. destruct ps as [|p0 ps]; [destruct Hp|]. cbn [hd].
+    cbn [map Model.is_splat Model.elem_value] in Hs. rewrite map_id in Hs.
+    destruct Hp as [<-|Hp]; [reflexivity|]. rewrite forallb_forall in Hs.
+    specialize (Hs p Hp). cbn in Hs. apply Z.eqb_eq in Hs. auto.
+  Qed.
+
+  (* dense attributes with integer / index elements round-trip for every shape, every width up to
+     64 bits, every signedness and every stored value: list, splat and hex-string forms *)
+  Theorem dense_int_roundtrip_ok : forall hexfix splatfix ty shape ps sz,
+    int_size ty = Ok sz ->
+    prod shape = Z.of_nat (List.length ps) -> Forall (fun d => 0 <= d) shape ->
+    Forall (int_payload_ok ty) ps ->
+    dense_roundtrip hexfix splatfix (EI ty) shape ps = Ok ps.
+  Proof.
+    intros hexfix splatfix ty shape ps sz Hsz Hprod Hdims Hps.
+    assert (Hszpos : 0 < sz).
+    { destruct ty as [|w s]; [cbn in Hsz; injection Hsz as <-; lia|].
+      destruct ps as [|p ps'].
+      - unfold int_size in Hsz. destruct (8 <=? _); [discriminate|].
+        destruct (_ <=? 0); [injection Hsz as <-; lia|]. destruct (_ =? 1); [injection Hsz as <-; lia|].
+        destruct (_ <=? 3); injection Hsz as <-; lia.
+      - inversion Hps as [|? ? [Hw _] _]; subst. destruct (int_size_cases w s sz Hw Hsz); lia. }
+    apply dense_roundtrip_ok with (sz := sz); auto.
+    - eapply Forall_impl; [|exact Hps]. intros p Hp. apply int_elem_rt. assumption.
+    - eapply Forall_impl; [|exact Hps]. intros p Hp. apply int_payload_fits; assumption.
+    - apply int_splat_exact.
+  Qed.
+
+  Lemma int_array_elem_rt : forall hexfix w s p, int_payload_ok (TInteger w s) p ->
+    parse_array_elem hexfix (EI (TInteger w s)) (print_elem (EI (TInteger w s)) (elem_value (EI (TInteger w s)) p)) = Ok p.
+  Proof.
+    intros hexfix w s p [Hw Hok]. unfold Model.parse_array_elem, Model.print_elem, Model.elem_value.
+    destruct (is_i1 (TInteger w s)) eqn:Hi1.
+    - assert (TInteger w s = TInteger 1 Signless) as E.
+      { destruct s; try discriminate. cbn in Hi1. apply Z.eqb_eq in Hi1. subst. reflexivity. }
+      injection E as -> ->. destruct (i1_values p p Hok) as [-> | ->]; vm_compute; reflexivity.
+    - unfold print_int. rewrite lex_fmt_d. rewrite <- (app_nil_r (int_toks p)), int_toks_value.
+      destruct (integer_attr_spec w s p p Hw Hok) as (Hr & _ & _ & _ & _ & Hn). rewrite Hr, Hn. reflexivity.
+  Qed.
+
+  Theorem densearray_int_roundtrip_ok : forall hexfix w s ps,
+    Forall (int_payload_ok (TInteger w s)) ps ->
+    densearray_roundtrip hexfix (EI (TInteger w s)) ps = Ok ps.
+  Proof.
+    intros hexfix w s ps H. apply densearray_roundtrip_ok. eapply Forall_impl; [|exact H].
+    intros p Hp. apply int_array_elem_rt. assumption.
+  Qed.
+
+  (* ---- float elements with the proposed repairs (hexfix = splatfix = true) ---- *)
+
+  Notation print_float_branch := (print_float_branch pack unpack fmt5e fmt9g fmt17g scan).
+
+  Lemma lex_hex_alone : forall hs, hs <> [] -> forallb is_hexdigit hs = true ->
+    lex false (str "0x" ++ hs) = Ok [TInt (48 :: 120 :: hs)].
+  Proof.
+    intros hs Hne Hall. rewrite str_0x. cbn [app]. apply lex_of_lexes.
+    - eapply lexes_cons.
+      + rewrite <- (app_nil_r hs) at 1. apply lex1_hex; [assumption|assumption|exact I].
+      + apply lexes_nil. reflexivity.
+    - cbn [List.length]. lia.
+  Qed.
+
+  (* an element printed in hexadecimal (NaN, infinities, hexadecimal fallback) reads back bit for bit *)
+  Lemma hex_elem_text_rt : forall ty p hs,
+    0 <= p < 2 ^ (8 * fsize ty) -> pack ty (unpack ty p) = p ->
+    hs <> [] -> forallb is_hexdigit hs = true -> int_of_digits 16 hs = Some p ->
+    parse_elem_text true (EF ty) (str "0x" ++ hs) = Ok p /\
+    parse_array_elem true (EF ty) (str "0x" ++ hs) = Ok p.
+  Proof.
+    intros ty p hs Hr Hcanon Hne Hall Hval.
+    assert (Hlt : (p <? 2 ^ (8 * fsize ty)) = true) by (apply Z.ltb_lt; lia).
+    unfold Model.parse_elem_text, Model.parse_array_elem. rewrite lex_hex_alone by assumption.
+    split.
+    - cbn [Model.parse_elem is_hex_tok]. unfold get_int_value.
+      change (48 =? 48) with true. change (120 =? 120) with true. cbn [andb orb]. rewrite Hval.
+      cbn [Model.elem_payload andb]. rewrite Hlt, Hcanon. reflexivity.
+    - cbn [is_hex_tok]. unfold get_int_value.
+      change (48 =? 48) with true. change (120 =? 120) with true. cbn [andb orb]. rewrite Hval.
+      rewrite Hlt, Hcanon. reflexivity.
+  Qed.
+
+  Definition hex_printed (ty : fty) (p : Z) : Prop :=
+    let x := unpack ty p in
+    print_float_branch ty x = 0 \/
+    (print_float_branch ty x = 3 /\ fallback_bits pack ty x = p).
+
+  Lemma hex_elem_rt : forall ty p, 0 < fsize ty ->
+    0 <= p < 2 ^ (8 * fsize ty) -> pack ty (unpack ty p) = p -> hex_printed ty p ->
+    elem_rt true (EF ty) p /\
+    parse_array_elem true (EF ty) (print_elem (EF ty) (elem_value (EF ty) p)) = Ok p.
+  Proof.
+    intros ty p Hsz Hr Hcanon Hhex. unfold elem_rt, Model.print_elem, Model.elem_value.
+    rewrite (print_float_by_branch pack unpack fmt5e fmt9g fmt17g repr_ scan).
+    destruct Hhex as [Hb|[Hb Hbits]]; rewrite Hb.
+    - rewrite Hcanon.
+      destruct (hex_fixed_spec false (Z.to_nat (2 * fsize ty)) p 0 ltac:(lia)) as (Hhorn & Hall & Hlen).
+      apply hex_elem_text_rt; auto.
+      + intros E. rewrite E in Hlen. cbn [List.length] in Hlen. lia.
+      + unfold int_of_digits.
+        destruct (hex_fixed false (Z.to_nat (2 * fsize ty)) p) eqn:E; [cbn [List.length] in Hlen; lia|].
+        rewrite Hhorn. f_equal. rewrite pow16_pow2 by lia. rewrite Z.mod_small by lia. lia.
+    - rewrite Hbits. unfold fmt_X.
+      destruct (nat_digits_spec 16 true p ltac:(lia) ltac:(lia)) as (Hne & _ & Hval).
+      apply hex_elem_text_rt; auto. apply nat_digits16_all_hex. lia.
+  Qed.
+
+  Lemma float_payload_fits : forall ty p, 0 < fsize ty -> 0 <= p < 2 ^ (8 * fsize ty) ->
+    payload_fits (EF ty) (fsize ty) p.
+  Proof.
+    intros ty p Hsz Hr. unfold payload_fits, payload_of_bytes. rewrite of_le_bytes_le_bytes.
+    rewrite Z2Nat.id by lia. change 256 with (2 ^ 8). rewrite <- Z.pow_mul_r by lia. apply Z.mod_small. lia.
+  Qed.
+
+  (* With the repairs, a float dense attribute round-trips bit for bit as soon as every element that is NOT
+     printed in hexadecimal reads back on its own (the decimal forms: the CPython facts of C06_float_rt);
+     NaN / infinity / hexadecimal-fallback elements and mixed signed zeros need no hypothesis any more. *)
+  Theorem dense_float_roundtrip_fixed : forall ty shape ps,
+    0 < fsize ty ->
+    prod shape = Z.of_nat (List.length ps) -> Forall (fun d => 0 <= d) shape ->
+    Forall (fun p => 0 <= p < 2 ^ (8 * fsize ty) /\ pack ty (unpack ty p) = p /\
+                     (hex_printed ty p \/ elem_rt true (EF ty) p)) ps ->
+    dense_roundtrip true true (EF ty) shape ps = Ok ps.
+  Proof.
+    intros ty shape ps Hsz Hprod Hdims Hps.
+    apply dense_roundtrip_ok with (sz := fsize ty); auto.
+    - eapply Forall_impl; [|exact Hps]. intros p (Hr & Hc & [Hh|Hrt]); [|assumption].
+      apply hex_elem_rt; assumption.
+    - eapply Forall_impl; [|exact Hps]. intros p (Hr & _ & _). apply float_payload_fits; assumption.
+    - apply splat_exact_fixed.
+  Qed.
+
+  Theorem densearray_float_roundtrip_fixed : forall ty ps,
+    0 < fsize ty ->
+    Forall (fun p => 0 <= p < 2 ^ (8 * fsize ty) /\ pack ty (unpack ty p) = p /\
+                     (hex_printed ty p \/
+                      parse_array_elem true (EF ty) (print_elem (EF ty) (elem_value (EF ty) p)) = Ok p)) ps ->
+    densearray_roundtrip true (EF ty) ps = Ok ps.
+  Proof.
+    intros ty ps Hsz Hps. apply densearray_roundtrip_ok.
+    eapply Forall_impl; [|exact Hps]. intros p (Hr & Hc & [Hh|Hrt]); [|assumption].
+    apply hex_elem_rt; assumption.
+  Qed.
+End DenseProofs.
